@@ -100,7 +100,9 @@ func (r *Report) Anchor(what string) {
 	r.cur = save
 }
 
-func (r *Report) Note(format string, a ...interface{}) { r.notes = append(r.notes, fmt.Sprintf(format, a...)) }
+func (r *Report) Note(format string, a ...interface{}) {
+	r.notes = append(r.notes, fmt.Sprintf(format, a...))
+}
 
 // ---- known findings ----
 
